@@ -123,3 +123,27 @@ def library_surfaces(rng, big=False):
     # isolated vertex, bow-tie free
     out.append(("isolated-vertex", 5, [[0, 1, 2], [0, 2, 3]]))
     return out
+
+
+def is_subdividable(nv, faces):
+    """Generator-side filter: two faces share at most one edge; no polygon chord is an edge."""
+    edges = {}
+    for fi, f in enumerate(faces):
+        for i in range(len(f)):
+            edges.setdefault(frozenset((f[i], f[(i + 1) % len(f)])), []).append(fi)
+    pairs = {}
+    for fs in edges.values():
+        if len(fs) == 2:
+            k = tuple(sorted(fs))
+            pairs[k] = pairs.get(k, 0) + 1
+            if pairs[k] > 1:
+                return False
+    for f in faces:
+        n = len(f)
+        for i in range(n):
+            for j in range(i + 2, n):
+                if i == 0 and j == n - 1:
+                    continue
+                if frozenset((f[i], f[j])) in edges:
+                    return False
+    return True
